@@ -2,7 +2,7 @@
 # labtest.sh <seed-id> <Cxx> [more Cxx...]: like seedtest.sh, but in the scratch laboratory (lib/mutlab.sh setup first),
 # so /repo is never touched. Prints one line per check.
 id=$1; shift
-L=/tmp/mutlab
+L=${LAB:-/tmp/mutlab}
 [ -d $L/repo ] || bash /verif/lib/mutlab.sh setup
 git -C $L/repo reset -q --hard HEAD
 git -C $L/repo apply /verif/seeded/$id/patch.diff || git -C $L/repo apply --3way /verif/seeded/$id/patch.diff || { echo "patch does not apply"; exit 2; }
